@@ -1270,6 +1270,16 @@ fn gen_c17(g: &mut G) {
         g.op("debug", &o);
         // special states: the very end of the keystream (remaining = Some(0)), the last blocks, far positions
         if let Some(bits) = ctr_bits(&kind) {
+            if g.rng.chance(1, 4) {
+                // a far, high-entropy block position: the counter itself becomes a recognisable secret
+                let r = ((g.rng.next() as u128) << 64 | g.rng.next() as u128) >> (128 - bits + 1);
+                g.cmds.push(json!({"op":"setbpos","o":o,"v":r.to_string()}));
+                // (byte-stream aliases stay block-aligned: mid-block Debug is the known finding)
+                if bytelevel { g.bytes(&o, 2 * bs, false) } else { g.blocks(&o, 2, true, false) }
+                g.op("debug", &o);
+                g.op("drop", &o);
+                continue;
+            }
             if g.rng.chance(1, 2) {
                 let k = *g.rng.pick(&[0i64, 0, 1, 2]);
                 if kind.ends_with("core") || bits == 128 {
